@@ -103,7 +103,10 @@ def tx_expr(e, ch):
     else:
         raise ValueError(k)
     if k != 'Slice' and ch.want('paren'):
-        out = ('Paren', out, 1 + ch.n(3))
+        depth = 1 + ch.n(3)
+        if ch.n(16) == 0:
+            depth = [49, 51, 64, 130, 300][ch.n(5)]       # redundant parentheses are insignificant at any depth
+        out = ('Paren', out, depth)
     return out
 
 
@@ -165,11 +168,12 @@ def gap_rewrite(text, ch):
             if ch.want('nl-in-brackets'):
                 g.gaps[i + 1] += ['\n', '\r\n', '\n\n  ', '\r\n\t'][ch.n(4)]
             if ch.want('comment-in-brackets'):
-                g.gaps[i + 1] += [' # c, ) ] "\n', '#\n', ' # x = 1; y\r\n'][ch.n(3)]
+                g.gaps[i + 1] += [' # c, ) ] "\n', '#\n', ' # x = 1; y\r\n', ' # end;\n', '#;\r\n', ' # \\\n', " # '\n", ' # (\n'][ch.n(8)]
     # comment before a line end / at the end of the text
     for i, t in enumerate(toks):
         if t.kind == 'NEWLINE' and g.pieces[i][0] in '\r\n' and ch.want('comment-eol'):
-            g.gaps[i] += [' # note; x = 1', '#', ' # ) ] }'][ch.n(3)]
+            g.gaps[i] += [' # note; x = 1', '#', ' # ) ] }', ' # was 2;', '#;', ' # "', " # it's", ' # \\', ' # x = (', ' # %a', ' #\t', ' # ;;', ' # a,',
+                          ' # => ='][ch.n(14)]
             g.locked.add(i)
     if ch.want('comment-eof'):
         g.gaps[-1] += ' # trailing'
